@@ -482,7 +482,9 @@ fn main() {
                 sc.spawn(move || {
                     private_commits(st, 4, &[(1, 60 * s), (2, 60 * s), (3, 60 * s), (4, 400 * if thorough { 10 } else { 1 })], thorough)
                 });
-                sc.spawn(move || private_commits(st, 5, &[(2, 20 * s), (5, 20 * s)], false));
+                if thorough {
+                    sc.spawn(move || private_commits(st, 5, &[(2, 20 * s), (5, 20 * s)], false));
+                }
                 sc.spawn(move || private_commits(st, 8, &[(1, 40 * s), (3, 20 * s), (8, 20 * s)], false));
             }
         });
